@@ -59,6 +59,11 @@ def curated():
     # 12 two phrases sharing a fragment in different contexts (cache reuse): S' : S' [ S ] | [ S ] ; S : p A q | r A t ; A : x y
     c.append(entry("ctxfrag", [R(T, [T, 1, S, 2], 1, 1, [1, 3]), R(T, [1, S, 2], 1, 1, [2]), R(S, [3, A, 4], 2, 1, [2]), R(S, [5, A, 6], 3, 1, [2]), R(A, [7, 8], 4, 1, [1, 2])],
                    maxlen=0, alphabet=[1], inputs=[[1, 3, 7, 8, 4, 2, 1, 5, 7, 8, 6, 2], [1, 5, 7, 8, 6, 2, 1, 3, 7, 8, 4, 2, 1, 3, 7, 8, 4, 2], [1, 3, 7, 8, 6, 2], [1, 3, 7, 8, 4, 2] * 4]))
+    # 13 the same fragment grammar with a right-recursive list: the sets after `[' are identical in every repetition,
+    #    so the cached transition on `y' is found again with a different origin set for the first start situation only
+    c.append(entry("ctxfragR", [R(T, [B]), R(T, [B, T], 1, 1, [1, 2]), R(B, [1, S, 2], 0, 0, [2]), R(S, [3, A, 4], 2, 1, [2]), R(S, [5, A, 6], 3, 1, [2]), R(A, [7, 8], 4, 1, [1, 2])],
+                   maxlen=0, alphabet=[1], inputs=[[1, 3, 7, 8, 4, 2, 1, 5, 7, 8, 6, 2], [1, 5, 7, 8, 6, 2, 1, 3, 7, 8, 4, 2], [1, 3, 7, 8, 4, 2] * 2 + [1, 5, 7, 8, 6, 2] * 2 + [1, 3, 7, 8, 4, 2],
+                                                       [1, 3, 7, 8, 6, 2]]))
     return c
 
 
@@ -144,5 +149,30 @@ def random_grammars(seed, n, nnts=4, nterms=3, maxrules=7, maxrhs=3, err=False, 
                     rules.append(R(l, r, rnd.randint(1, 3), rnd.randint(0, 3), []))
             else:
                 rules.append(R(l, r))
-        out.append(entry("rnd-%d-%d" % (seed, k), rules, terms=[{"n": t, "c": t} for t in ts], maxlen=maxlen, alphabet=ts))
+        # repeated fragments make the parser meet the same (set, terminal, lookahead) triples again
+        reps = []
+        for _ in range(3):
+            frag = [rnd.choice(ts) for _ in range(rnd.randint(1, 3))]
+            reps.append(frag * rnd.randint(2, 4))
+        out.append(entry("rnd-%d-%d" % (seed, k), rules, terms=[{"n": t, "c": t} for t in ts], maxlen=maxlen, alphabet=ts, inputs=reps))
+    return out
+
+
+def long_inputs():
+    """(entry id, grammar rules reused from the curated corpus, long inputs with many repeated fragments).
+    These are not judged by TLC (too long); they serve the cache and lookahead-independence checks."""
+    cur = {e["id"]: e for e in curated()}
+    out = []
+    frag1 = [1, 3, 7, 8, 4, 2]
+    frag2 = [1, 5, 7, 8, 6, 2]
+    out.append(("ctxfrag", cur["ctxfrag"], [frag1 * 40 + frag2 * 40, (frag1 + frag2) * 60, (frag2 + frag1 + frag1) * 50,
+                                            frag1 * 10 + [1, 3, 7, 8, 6, 2] + frag2 * 10]))       # the last one has an error in the middle
+    out.append(("ctxfragR", cur["ctxfragR"], [(frag1 + frag2) * 40, frag1 * 30 + frag2 * 30 + frag1 * 3, (frag2 * 2 + frag1) * 20]))
+    out.append(("expr", cur["expr"], [([1, 2, 1, 3, 4, 1, 2, 1, 5, 2] * 80)[:-1], ([4] * 30 + [1] + [5] * 30 + [2]) * 6 + [1],
+                                      ([1, 2, 1, 3] * 100)[:-1], [1, 2] * 50 + [2, 1] + [2, 1] * 50]))
+    out.append(("llist", cur["llist"], [[1, 2] * 500 + [1], [1, 2] * 100 + [2] + [1, 2] * 100 + [1]]))
+    out.append(("rlist", cur["rlist"], [[1, 2] * 500 + [1]]))
+    out.append(("stmts", cur["stmts"], [[1, 2] * 200, ([1, 2] * 7 + [1, 1, 2]) * 30, ([1, 2] * 3 + [2, 2, 1]) * 40 + [1, 2]]))
+    out.append(("dangling", cur["dangling"], [[1] * 60 + [3] + [2, 3] * 30, [1, 1, 3, 2, 3, 2] * 5 + [3]]))
+    out.append(("nestederr", cur["nestederr"], [[1, 3, 3, 4, 2] * 1, [1, 3, 3, 3, 3, 4, 2], [1, 3, 4, 2]]))
     return out
